@@ -14,7 +14,8 @@ Hop(o) == [o |-> o, t |-> 0, c |-> 0, n |-> 0]
 \* a whole pass as one operator (sources served in ascending order; used for warm starts only)
 RECURSIVE ServeAll(_)
 ServeAll(X) == IF PassDone(X) THEN X
-               ELSE LET x == SetMin(X.todo) IN ServeAll(IF x = 0 THEN Accept(X) ELSE Deliver(X, x))
+               ELSE LET x == SetMin(IF X.acc >= 1 THEN X.todo \ {0} ELSE X.todo)        \* like the code: one accept per pass
+                    IN ServeAll(IF x = 0 THEN Accept(X) ELSE Deliver(X, x))
 XPass(X) == [ServeAll([Clr(X) EXCEPT !.inpass = TRUE, !.todo = Ready(X), !.closing = {},
                                       !.seof = [c \in Cl |-> @[c] \/ c \in X.closing], !.acc = 0]) EXCEPT !.inpass = FALSE, !.todo = {}, !.out = <<>>, !.r = 0]
 XConnect(X) == [Clr(X) EXCEPT !.nc = @ + 1, !.cst[X.nc + 1] = "queued", !.backlog = Append(@, X.nc + 1), !.r = 1]
